@@ -341,6 +341,49 @@ def select(ctx, cls):
         pushes = [s for s in f.stmts.values() if s["k"] == "CXXMemberCallExpr" and s["callee"]["name"] in ("push_back", "emplace_back")
                   and (f.s(s["obj"]) or {}).get("t", "").startswith("std::vector<std::shared_ptr<") and
                   (path(f, f.s(s["obj"])) or "").startswith("l:")]
+        # callbacks (and with them arbitrary re-entrant calls: add, destroyObjects) never run over a range of the MEMBER
+        # vector: an insertion from inside the callback invalidates the iterators the loop is standing on
+        FIELD = "ElementsToBeDestroyed"
+        def from_member(e, depth=0):
+            e = unwrap(f, e)
+            if e is None or depth > 3:
+                return False
+            if any(d["k"] == "MemberExpr" and d["m"].get("is_field") and d["m"]["name"] == FIELD for d in [e] + list(f.descendants(e))):
+                return True
+            if e["k"] == "DeclRefExpr" and e["d"].get("k") == "local":
+                return any(from_member(f.s(d.get("init")), depth + 1) for s_ in f.stmts.values() if s_["k"] == "DeclStmt"
+                           for d in s_["decls"] if d["id"] == e["d"].get("id") and d.get("init"))
+            return False
+        for s in f.stmts.values():
+            if s["k"] == "CallExpr" and callee_fq(s) in ("std::for_each", "std::for_each_n") and len(s["args"]) >= 3 and \
+                    "std::function<" in (f.s(s["args"][-1]) or {}).get("t", "") + ((unwrap(f, f.s(s["args"][-1])) or {}).get("t", "")):
+                bad_rng = from_member(f.s(s["args"][0])) or from_member(f.s(s["args"][1]))
+                ctx.ob(rid, not bad_rng, f.loc(s), "the pre-destruction callback is applied to a local collection, not to a range of the "
+                       "member vector", "" if not bad_rng else "the callback runs while the loop iterates over %s itself: a callback that "
+                       "adds an object (or reaps again) reallocates the vector under the loop" % FIELD, fn=f.label, inst=f.qname)
+        if not pushes:
+            # selection by an algorithm over the member (partition / remove_if with a predicate on use_count) and a local vector
+            # filled from the selected range: not the loop this clause reads
+            # (std::remove_if is NOT such an algorithm: it keeps the prefix and leaves the tail moved-from - the "removed"
+            # objects are destroyed inside it, under the lock and without their callback)
+            algs = [s for s in f.stmts.values() if s["k"] == "CallExpr" and callee_fq(s) in ("std::stable_partition", "std::partition")
+                    and s["args"] and from_member(f.s(s["args"][0]))]
+            uses = False
+            for a_ in algs:
+                lam = unwrap(f, f.s(a_["args"][-1]))
+                while lam is not None and lam["k"] in CTORS and len(lam["args"]) == 1:
+                    lam = unwrap(f, f.s(lam["args"][0]))
+                for oid in (lam or {}).get("call_ops", []) if lam is not None and lam["k"] == "LambdaExpr" else []:
+                    g = f.unit.fn_by_id.get(oid)
+                    if g is not None and any(x["k"] == "CXXMemberCallExpr" and x["callee"]["name"] == "use_count" for x in g.stmts.values()):
+                        uses = True
+            keepers = [d for s_ in f.stmts.values() if s_["k"] == "DeclStmt" for d in s_["decls"]
+                       if d.get("type", "").startswith("std::vector<std::shared_ptr<") and not d.get("ref") and d.get("init") and
+                       from_member(f.s(d["init"]))]
+            if algs and uses and keepers:
+                ctx.unknown("%s: %s selects the objects to reap with %s over the member vector and moves the selected range into a "
+                            "local; the shape of that selection is not decided by this clause" % (rid, f.label, callee_fq(algs[0])))
+                continue
         ok = bool(pushes)
         for p in pushes:
             b = f.pos_of(p)[0]
@@ -362,8 +405,12 @@ def select(ctx, cls):
         if not rm:
             # the removal is no longer a remove_if with a predicate (a hand-written compaction, ...): the membership test is
             # looked for in the function itself; where it is, is not judged by this clause
-            body_ok = any(s["k"] == "CallExpr" and callee_fq(s) == "std::find" for s in f.stmts.values()) and \
-                sum(1 for s in f.stmts.values() if s["k"] == "CXXMemberCallExpr" and s["callee"]["name"] == "use_count") >= 2
+            body_ok = (any(s["k"] == "CallExpr" and callee_fq(s) == "std::find" for s in f.stmts.values()) and
+                       sum(1 for s in f.stmts.values() if s["k"] == "CXXMemberCallExpr" and s["callee"]["name"] == "use_count") >= 2) or \
+                (bool(pushes) and all(any(d["k"] == "CallExpr" and callee_fq(d) == "std::move" for d in f.descendants(p)) for p in pushes) and
+                 any(s["k"] == "CXXMemberCallExpr" and s["callee"]["name"] == "erase" for s in f.stmts.values()))
+            # (second form: the selected elements are MOVED into the keep-alive vector in the selecting pass itself and the
+            # emptied tail is erased - a compaction written by hand)
             if body_ok:
                 ctx.unknown("%s: %s removes the collected elements without std::remove_if; the shape of its selection is not "
                             "decided by this clause" % (rid, f.label))
